@@ -2791,3 +2791,200 @@ Definition w_in_guard : ir :=
 Lemma C01_rest_nonvacuous_lemma :
   guard_C01_rest true w_in_guard = true /\ guard_C01_rest false w_in_guard = true.
 Proof. split; vm_compute; reflexivity. Qed.
+
+(* ------------------------------------------------------------------ *)
+(* (iii) the per-parameter lemma, stated on the two lines              *)
+(* ------------------------------------------------------------------ *)
+
+(* :param n: d Defaults to s  +  :type n: ```t```  with d, v, t in the guard of C17: the parsed entry has
+   prose d (d with its sentence when the parse keeps it), type t, and a default equal to v *)
+Lemma param_line_form : forall n val ws,
+    L ":param " ++ n ++ L ": " ++ val ++ ws = key_line (L ":param") n val ws.
+Proof. reflexivity. Qed.
+
+Lemma type_line_form : forall n t ws,
+    L ":type " ++ n ++ L ": ```" ++ t ++ L "```" ++ ws = key_line (L ":type") n (L "```" ++ t ++ L "```") ws.
+Proof. intros n t ws. unfold key_line. rewrite <- !app_assoc. reflexivity. Qed.
+
+Theorem param_pair_parse_lemma : forall ww edd n d t v s sdoc,
+    is_ident n = true -> endswith (L "kwargs") n = false ->
+    doc_fine d -> no_rest_token d = true -> type_in_domain t = true ->
+    guard_C17 ADefaultsTo d v (Some t) = true -> shown_value v (Some t) = Ok s ->
+    value_text_clean s = true -> default_journey edd (Some t) s v = None ->
+    exists w vfin,
+      fold_outcome (parse_rest_line false ww true edd)
+                   [(true, L ":param " ++ n ++ L ": " ++ sentence d s ++ [nl]);
+                    (true, L ":type " ++ n ++ L ": ```" ++ t ++ L "```" ++ [nl; nl])]
+                   (mkRS sdoc [] None (None, empty_param))
+      = Ok (mkRS sdoc [] None
+                 (Some n, mkParam (Has (if edd then sentence d s else d)) (Has t) (Some w)))
+      /\ interpolate_defaults (mkParam (Has (if edd then sentence d s else d)) (Has t) (Some w))
+                              default_announces false edd
+         = Ok (mkParam (Has (if edd then sentence d s else d)) (Has t) (Some vfin))
+      /\ same_val v vfin = true.
+Proof.
+  intros ww edd n d t v s sdoc Hid Hk Hdf Hdtok Htd Hg Hs Hclean Hj.
+  destruct (is_ident_good n Hid Hk) as [Hgood _].
+  destruct (type_in_domain_inv t Htd) as [Htf _].
+  assert (Hna : no_announce d = true).
+  { unfold guard_C17, C17_domain in Hg. apply andb_true_iff in Hg. destruct Hg as [Hg _].
+    apply andb_true_iff in Hg. apply Hg. }
+  destruct (journey_inv edd (Some t) s v Hj) as [v1 [typ1 [w1 [Hv1 [Hr1 Hcase]]]]].
+  assert (Hex : exists w2 vfin,
+             (if edd
+              then exists v2, coerce_default (Some t) s = Ok v2
+                              /\ infer_res (Has t) (unquote_val v2) = Ok (Has t, w2) /\ vfin = unquote_val v2
+              else infer_res (Has t) w1 = Ok (Has t, w2) /\ settled (Has t) w2 = true /\ vfin = w2)
+             /\ same_val v vfin = true).
+  { destruct edd.
+    - destruct Hcase as [v2 [w2 [H1 [H2 H3]]]]. exists w2, (unquote_val v2). split; [|exact H3].
+      exists v2. repeat split; assumption.
+    - destruct Hcase as [w2 [H1 [H2 H3]]]. exists w2, w2. split; [|exact H3]. repeat split; assumption. }
+  destruct Hex as [w2 [vfin [Hjj Hsv]]].
+  destruct (entry_default_typ ww edd n d s v (Some t) Hgood (conj Hdf Hna) Hdtok Hg Hs Hclean
+                              t v1 typ1 w1 w2 vfin eq_refl Htf Hv1 Hr1 Hjj) as [Hrun [_ Hfin]].
+  exists w2, vfin. split; [|split; [exact Hfin|exact Hsv]].
+  rewrite param_line_form, type_line_form.
+  exact (Hrun sdoc [] None (None, empty_param) eq_refl).
+Qed.
+
+(* ------------------------------------------------------------------ *)
+(* class-free corollaries                                              *)
+(* ------------------------------------------------------------------ *)
+
+(* prose the proved region accepts, whatever follows it *)
+Definition plain_prose (d : str) : bool :=
+  negb (match d with [] => true | _ => false end)
+  && clean_line d && negb (starts_optional d) && no_announce d && no_rest_token d.
+
+(* a parameter with prose and a declared type, no default *)
+Definition simple_param (kv : str * gparam) : bool :=
+  is_ident (fst kv) && negb (endswith (L "kwargs") (fst kv)) && negb (str_eqb (fst kv) (L "return_type"))
+  && match g_doc (snd kv), g_typ (snd kv), g_default (snd kv) with
+     | Has d, Has t, None => plain_prose d && type_in_domain t
+     | _, _, _ => false
+     end.
+
+Definition simple_ir (i : ir) : bool :=
+  (match ir_doc i with Has d => no_rest_token d && str_eqb (strip d) d | _ => false end)
+  && (match ir_params i with [] => false | _ => true end)
+  && forallb simple_param (ir_params i)
+  && nodup_str (map fst (ir_params i))
+  && (match ir_returns i with Has _ => false | _ => true end).
+
+Lemma simple_param_facts : forall edd n g, simple_param (n, g) = true ->
+    param_in_domain (n, g) = true /\ param_class edd n g = None.
+Proof.
+  intros edd n g H. unfold simple_param in H. cbn [fst snd] in H.
+  apply andb_true_iff in H. destruct H as [H Hg].
+  apply andb_true_iff in H. destruct H as [H Hrt].
+  apply andb_true_iff in H. destruct H as [Hid Hk]. apply negb_true_iff in Hk.
+  destruct g as [gd gt gdf]. cbn [g_doc g_typ g_default] in Hg.
+  destruct gd as [| |d]; try discriminate. destruct gt as [| |t]; try discriminate.
+  destruct gdf; [discriminate|].
+  apply andb_true_iff in Hg. destruct Hg as [Hp Htd].
+  unfold plain_prose in Hp.
+  apply andb_true_iff in Hp. destruct Hp as [Hp Htok].
+  apply andb_true_iff in Hp. destruct Hp as [Hp Hna].
+  apply andb_true_iff in Hp. destruct Hp as [Hp Hop].
+  apply andb_true_iff in Hp. destruct Hp as [Hne Hcl]. apply negb_true_iff in Hop.
+  destruct d as [|c r]; [discriminate|].
+  destruct (type_in_domain_inv t Htd) as [[_ [Htne _]] _]. destruct t as [|ct rt]; [contradiction|].
+  split.
+  - unfold param_in_domain, entry_in_domain. cbn [fst snd g_doc g_typ g_default].
+    rewrite Hid, Hrt, Htok, Htd. reflexivity.
+  - unfold param_class. cbn [g_doc g_typ g_default fld_str]. rewrite Hcl, Hop, Hna, Hk. reflexivity.
+Qed.
+
+Lemma simple_ir_guard : forall edd i, simple_ir i = true -> guard_C01_rest edd i = true.
+Proof.
+  intros edd i H. unfold simple_ir in H.
+  apply andb_true_iff in H. destruct H as [H Hret].
+  apply andb_true_iff in H. destruct H as [H Hnd].
+  apply andb_true_iff in H. destruct H as [H Hps].
+  apply andb_true_iff in H. destruct H as [Hdoc Hne].
+  destruct i as [iname itype idoc ps irets iint]. cbn [ir_doc ir_params ir_returns] in *.
+  destruct idoc as [| |sdoc]; try discriminate.
+  apply andb_true_iff in Hdoc. destruct Hdoc as [Htok Hstrip].
+  assert (Hall : forallb param_in_domain ps = true
+                 /\ first_class (fun kv => param_class edd (fst kv) (snd kv)) ps = None).
+  { clear Hne Hnd. induction ps as [|[n g] ps IH]; [split; reflexivity|].
+    cbn [forallb] in Hps. apply andb_true_iff in Hps. destruct Hps as [Hp Hps].
+    destruct (simple_param_facts edd n g Hp) as [H1 H2]. destruct (IH Hps) as [H3 H4].
+    split.
+    - cbn [forallb]. rewrite H1, H3. reflexivity.
+    - cbn [first_class fst snd]. rewrite H2. exact H4. }
+  destruct Hall as [Hdom Hfirst].
+  unfold guard_C01_rest, in_domain_C01, finding_class_C01_rest.
+  cbn [ir_doc ir_params ir_returns andb].
+  fold param_in_domain.
+  change (fun kv : str * gparam => is_ident (fst kv) && negb (str_eqb (fst kv) (L "return_type"))
+                                   && entry_in_domain (snd kv)) with param_in_domain.
+  rewrite Htok, Hdom, Hnd. cbn [andb].
+  destruct irets as [| |g]; try discriminate; cbn [fld_opt andb].
+  - destruct ps as [|p0 ps0]; [discriminate|]. rewrite Hstrip. cbn [negb]. rewrite Hfirst. reflexivity.
+  - destruct ps as [|p0 ps0]; [discriminate|]. rewrite Hstrip. cbn [negb]. rewrite Hfirst. reflexivity.
+Qed.
+
+(* every interface whose parameters all have clean prose and a declared type, without defaults and
+   without a return entry, round-trips through ReST, for both parse modes *)
+Theorem C01_rest_no_defaults_lemma : forall edd i, simple_ir i = true -> C01_rest_at edd i.
+Proof. intros edd i H. apply C01_rest_partial_lemma. apply simple_ir_guard. exact H. Qed.
+
+(* an int default under the declared type int is inside the guard, for every clean prose that ends
+   in a full stop or comma *)
+Lemma intchar_facts : forall z,
+    mem_c nl (dec_of_Z z) = false /\ mem_c colon (dec_of_Z z) = false
+    /\ exists l, last_c (dec_of_Z z) = Some l /\ isspace l = false.
+Proof.
+  intros z. pose proof (dec_of_Z_intchars z) as H. rewrite forallb_forall in H.
+  assert (Hno : forall c, intchar c = false -> mem_c c (dec_of_Z z) = false).
+  { intros c Hc. destruct (mem_c c (dec_of_Z z)) eqn:E; [|reflexivity].
+    apply mem_c_In in E. rewrite (H c E) in Hc. discriminate. }
+  split; [apply Hno; reflexivity|]. split; [apply Hno; reflexivity|].
+  destruct (last_c (dec_of_Z z)) as [l|] eqn:El.
+  - exists l. split; [reflexivity|]. apply last_c_In in El. pose proof (H l El) as Hl.
+    unfold intchar in Hl. unfold isspace.
+    apply orb_true_iff in Hl. destruct Hl as [Hl|Hl].
+    + unfold isdigit in Hl. apply andb_true_iff in Hl. destruct Hl as [Ha Hb].
+      apply Nat.leb_le in Ha. apply Nat.leb_le in Hb.
+      destruct (Nat.leb 9 (code l) && Nat.leb (code l) 13) eqn:E1.
+      { apply andb_true_iff in E1. destruct E1 as [_ E1]. apply Nat.leb_le in E1. lia. }
+      destruct (Nat.leb 28 (code l) && Nat.leb (code l) 32) eqn:E2; [|reflexivity].
+      apply andb_true_iff in E2. destruct E2 as [_ E2]. apply Nat.leb_le in E2. lia.
+    + apply ascii_eqb_eq in Hl. subst l. reflexivity.
+  - apply last_c_nil_iff in El. exfalso. exact (dec_of_Z_nonnil z El).
+Qed.
+
+Theorem param_class_int_default_lemma : forall edd n d z,
+    endswith (L "kwargs") n = false ->
+    prose_ok d = true -> clean_line d = true -> starts_optional d = false ->
+    param_class edd n (mkG (Has d) (Has (L "int")) (Some (DV (VInt z)))) = None.
+Proof.
+  intros edd n d z Hk Hp Hcl Hop.
+  destruct (prose_ok_inv d Hp) as [Hne [Hna _]].
+  assert (Hg : guard_C17 ADefaultsTo d (VInt z) (Some (L "int")) = true).
+  { apply guard_C17_split. split; [exact Hp|apply value_ok_int_typed]. }
+  assert (Efs : fld_str (Has (L "int")) = Some (L "int")) by reflexivity.
+  unfold param_class. cbn [g_doc g_typ g_default]. rewrite Efs. destruct d as [|c r]; [contradiction|].
+  change (fld_str (Has (c :: r))) with (Some (c :: r)). cbv iota.
+  rewrite Hcl, Hop, Hna, Hk. cbn [negb].
+  unfold guard_C17 in Hg. apply andb_true_iff in Hg. destruct Hg as [_ Hg].
+  destruct (finding_class_C17 ADefaultsTo (c :: r) (VInt z) (Some (L "int"))); [discriminate|].
+  rewrite shown_value_int.
+  destruct (intchar_facts z) as [Hnl [Hcolon [l [Hl Hls]]]].
+  assert (Hvc : value_text_clean (dec_of_Z z) = true).
+  { unfold value_text_clean. rewrite Hnl, (no_colon_no_token _ Hcolon), Hl, Hls. reflexivity. }
+  rewrite Hvc. cbn [negb].
+  unfold default_journey. rewrite coerce_default_int_untyped.
+  change (infer_res Missing (unquote_val (VInt z))) with (Ok (Has (L "int"), VInt z) : outcome (fld str * pyval)).
+  rewrite coerce_default_int_typed.
+  assert (Hir : infer_res (Has (L "int")) (VInt z) = Ok (Has (L "int"), VInt z)) by (vm_compute; reflexivity).
+  cbn [unquote_val]. rewrite Hir.
+  assert (Hset : settled (Has (L "int")) (VInt z) = true).
+  { unfold settled. rewrite Hir. cbn [fld_eqb]. rewrite str_eqb_refl. unfold pyval_eqb. rewrite Z.eqb_refl. reflexivity. }
+  rewrite Hset.
+  assert (Hsv : same_val (VInt z) (VInt z) = true).
+  { unfold same_val, pyval_eqb. rewrite Z.eqb_refl. reflexivity. }
+  rewrite Hsv. cbn [fld_eqb]. rewrite str_eqb_refl. destruct edd; reflexivity.
+Qed.
